@@ -281,16 +281,21 @@ package asn1parser
 //@   pure
 //@   ensures err == nil ==> ret != nil
 
+// rdnOfBytes: the rendering of the name encoded by a DER byte string (decoding is deterministic)
+//@ spec func rdnOfBytes(raw string) string uninterpreted
+
 //@ func ParseRDNSequence
 //@   props C07
 //@   assigns E.uint8, X.stream, X.spos
 //@   ensures err == nil ==> ret != nil
+//@   trusted_ensures name_is_a_function_of_the_bytes: err == nil ==> rdnString(*ret) == rdnOfBytes(old(content(rdnData)))
 
 //@ func ParseIssuerRDNSequence
-//@   props C07
+//@   props C07 C14
 //@   requires cert != nil
 //@   assigns E.uint8, X.stream, X.spos
 //@   ensures err == nil ==> ret != nil
+//@   ensures[C14] issuer_name: err == nil ==> rdnString(*ret) == rdnOfBytes(old(content(cert.RawIssuer)))
 
 //@ func ParseSubjectRDNSequence
 //@   props C07
